@@ -1,29 +1,8 @@
 (* C11 (batching part): model of mempool/src/batch_maker.rs and its exactly-once / in-order theorem. *)
 From Coq Require Import List NArith Lia Bool ZifyN ZifyBool.
+From HS Require Import Guards BatchMakerDefs.
 Import ListNotations.
 Open Scope N_scope.
-
-Definition tx := list N.
-Record BM := mkBM { cur : list tx; cur_size : N }.
-Inductive bev := BTx (t : tx) | BTimer.
-
-Definition bstep (batch_size : N) (s : BM) (e : bev) : BM * list (list tx) :=
-  match e with
-  | BTx t =>
-      let sz := cur_size s + N.of_nat (length t) in
-      let c := cur s ++ [t] in
-      if batch_size <=? sz then (mkBM [] 0, [c]) else (mkBM c sz, [])
-  | BTimer => match cur s with [] => (s, []) | _ => (mkBM [] 0, [cur s]) end
-  end.
-
-Fixpoint brun (bs : N) (s : BM) (es : list bev) : BM * list (list tx) :=
-  match es with
-  | [] => (s, [])
-  | e :: r => let '(s1, o1) := bstep bs s e in let '(s2, o2) := brun bs s1 r in (s2, o1 ++ o2)
-  end.
-
-Definition txs_of (es : list bev) : list tx := flat_map (fun e => match e with BTx t => [t] | BTimer => [] end) es.
-Definition size_of (l : list tx) : N := fold_right (fun t acc => N.of_nat (length t) + acc) 0 l.
 
 Definition BInv (bs : N) (s : BM) : Prop :=
   cur_size s = size_of (cur s) /\ (cur s = [] \/ cur_size s < bs).
@@ -36,7 +15,7 @@ Lemma bstep_inv bs s e : BInv bs s ->
   BInv bs s' /\ concat o ++ cur s' = cur s ++ (match e with BTx t => [t] | BTimer => [] end) /\
   (forall b, In b o -> b <> []).
 Proof.
-  intros [Hs Hb]. destruct e as [t|]; simpl.
+  intros [Hs Hb]. destruct e as [t|]; simpl; unfold g_batch_full, g_timer_seals.
   - destruct (bs <=? cur_size s + N.of_nat (length t)) eqn:E; simpl.
     + split; [split; [reflexivity|left; reflexivity]|]. rewrite !app_nil_r. split; [reflexivity|].
       intros b [<-|[]]. destruct (cur s); discriminate.
@@ -72,3 +51,30 @@ Proof.
   rewrite <- Hs. exact Hb.
 Qed.
 Print Assumptions c11_exactly_once_in_order.
+
+(* the timer seals everything pending *)
+Theorem c11_timer_seals_all bs s : let '(s', o) := bstep bs s BTimer in cur s' = [] /\ concat o = cur s.
+Proof. simpl. unfold g_timer_seals. destruct (cur s) eqn:E; simpl; [rewrite E; auto|rewrite app_nil_r; auto]. Qed.
+
+(* no panic in any build once the length test guards the index (the repaired seal); in the default build never *)
+Theorem c11_no_panic bench bs es s :
+  bench = false \/ g_seal_index_guarded = true -> snd (brun_ev bench bs s es) = false.
+Proof.
+  intros H. revert s. induction es as [|e r IH]; intros s; simpl; [reflexivity|].
+  destruct (bstep bs s e) as [s1 o1].
+  assert (E : existsb (seal_panics bench) o1 = false).
+  { apply not_true_is_false. intro Hx. apply existsb_exists in Hx. destruct Hx as [b [_ Hb]].
+    unfold seal_panics in Hb. destruct H as [Hf|Hg]; [subst bench; discriminate|].
+    rewrite Hg in Hb. cbn [negb] in Hb. rewrite andb_false_r in Hb. discriminate. }
+  rewrite E. specialize (IH s1). destruct (brun_ev bench bs s1 r) as [tr p]. exact IH.
+Qed.
+(* the per-event run is the plain run whenever there is no panic *)
+Theorem brun_ev_concat bench bs es : forall s, snd (brun_ev bench bs s es) = false ->
+  concat (fst (brun_ev bench bs s es)) = snd (brun bs s es).
+Proof.
+  induction es as [|e r IH]; intros s; simpl; [reflexivity|].
+  destruct (bstep bs s e) as [s1 o1]. destruct (existsb (seal_panics bench) o1); simpl; [discriminate|].
+  specialize (IH s1). destruct (brun_ev bench bs s1 r) as [tr p]. destruct (brun bs s1 r) as [s2 o2]. simpl in *.
+  intros Hp. rewrite IH; auto.
+Qed.
+Print Assumptions c11_no_panic.
